@@ -10,7 +10,7 @@ open SE
 theorem metricLineRE : Gen.metricLineRE = "^(\\*|[a-zA-Z_]([a-zA-Z0-9_\\-])*)(\\.\\*|\\.[a-zA-Z0-9_]([a-zA-Z0-9_\\-])*)*$" := by decide
 theorem metricNameRE : Gen.metricNameRE = "^([a-zA-Z_]|(\\$\\{?\\d+\\}?))([a-zA-Z0-9_]|(\\$\\{?\\d+\\}?))*$" := by decide
 theorem labelNameRE : Gen.labelNameRE = "^[a-zA-Z_][a-zA-Z0-9_]+$" := by decide
-theorem templateReplaceCaptureRE : Gen.templateReplaceCaptureRE = "\\$\\{?([a-zA-Z0-9_\\$]+)\\}?" := by decide
+theorem templateReplaceCaptureRE : Gen.templateReplaceCaptureRE = "\\$\\{?([a-zA-Z0-9_]+)\\}?" := by decide
 theorem defaultQuantiles : Gen.defaultQuantiles = [("0.5", "0.05"), ("0.9", "0.01"), ("0.99", "0.001")] := by decide
 
 end SE.Gen.Tie
